@@ -224,6 +224,10 @@ namespace sqf::parser::preprocessor
                     move_back();
                     break;
                 default:
+                    if (c == '"')
+                    { // next() toggled the string state when it handed the quote out: it is going to be read again
+                        is_in_string = !is_in_string;
+                    }
                     col--;
                     break;
                 }
